@@ -4,6 +4,7 @@
    event log (per tick: arrivals, decisions, results, pipelines recorded as finished). *)
 From Coq Require Import List ZArith QArith Permutation.
 Import ListNotations.
+From Eudoxia Require Import Proofs.PriorityPoolRunFacts Proofs.SimReachFacts Proofs.AuditExamplesA.
 From Eudoxia Require Import Model.Types Model.Lifecycle Model.Container Model.Pool Model.Executor Model.Sched
   Model.Simulator Proofs.ContainerRunFacts Proofs.ExecLifeFacts Proofs.StatsFacts.
 Close Scope Q_scope.
@@ -124,3 +125,63 @@ Theorem C06_uncontended_latency : forall C id ops cpu ram pr w0 p0 next,
     (forall i, i < length ops -> st_of w (nth i ops 0) = Completed).
 Proof. exact uncontended_latency. Qed.
 Print Assumptions C06_uncontended_latency.
+
+(* The hypothesis [counts_ok] of C06_never_while_unfinished and C06_finish_tick_has_result is a theorem:
+   [state_counts] is the histogram of the operator states in every executor state reachable under
+   arbitrary in-range commands, for pipelines built from well-formed DAGs ... *)
+Theorem C06_counts_ok_every_reachable : forall C l n cpu ram s k,
+  cf_static C = mk_static l -> dags_wf l ->
+  reach_exec_r C (init_estate C n cpu ram) s -> counts_ok (cf_static C) (e_world s) k.
+Proof. exact AuditA.counts_ok_every_reachable. Qed.
+Print Assumptions C06_counts_ok_every_reachable.
+
+(* ... hence in every state of every simulation run under every shipped scheduler [a] ... *)
+Theorem C06_counts_ok_sim : forall C a l np cpu ram t s k,
+  cf_static C = mk_static l -> dags_wf l ->
+  sim_reach C a 0%Z (init_sim C np cpu ram) t s ->
+  counts_ok (cf_static C) (e_world (sm_exec s)) k.
+Proof. exact AuditA.counts_ok_sim. Qed.
+Print Assumptions C06_counts_ok_sim.
+
+(* ... and in the world a scheduler hands to the executor (all its Assignment objects created) *)
+Theorem C06_counts_ok_sched_world : forall C a l np cpu ram t s newp ss' w' susps asgs k,
+  cf_static C = mk_static l -> dags_wf l ->
+  sim_reach C a 0%Z (init_sim C np cpu ram) t s ->
+  sched_step C a (sm_sched s) (sm_exec s) (sm_results s) newp = Ok (ss', w', susps, asgs) ->
+  counts_ok (cf_static C) w' k.
+Proof. exact AuditA.counts_ok_sched_world. Qed.
+Print Assumptions C06_counts_ok_sched_world.
+
+(* never while any operator is unfinished: in every state of every run, no side condition left *)
+Theorem C06_never_while_unfinished_sim : forall C a l np cpu ram t s k,
+  cf_static C = mk_static l -> dags_wf l ->
+  sim_reach C a 0%Z (init_sim C np cpu ram) t s ->
+  (is_successful (cf_static C) (e_world (sm_exec s)) k = true <->
+   forall o, In o (pd_order (pipe_of (cf_static C) k)) -> st_of (e_world (sm_exec s)) o = Completed).
+Proof. exact AuditA.never_while_unfinished_sim. Qed.
+Print Assumptions C06_never_while_unfinished_sim.
+
+(* C06_finish_tick_has_result for a tick of a run: the two histogram hypotheses and the busy-owner hypothesis
+   are discharged; what is left is the single-pipeline shape of the live containers *)
+Theorem C06_finish_tick_has_result_sim : forall C a l np cpu ram t s newp s1 lg p ss' w',
+  cf_static C = mk_static l -> dags_wf l ->
+  sim_reach C a 0%Z (init_sim C np cpu ram) t s ->
+  sim_tick C a t s newp = Ok (s1, lg) ->
+  sched_step C a (sm_sched s) (sm_exec s) (sm_results s) newp = Ok (ss', w', tl_susp lg, tl_asgs lg) ->
+  (forall q c, In q (e_pools (sm_exec s1)) -> In c (p_active q) -> mono_container (cf_static C) c) ->
+  is_successful (cf_static C) w' p = false ->
+  is_successful (cf_static C) (e_world (sm_exec s1)) p = true ->
+  In p (sm_outstanding s) \/ In p newp ->
+  tl_results lg <> [] /\ In p (tl_finished lg).
+Proof. exact AuditA.finish_tick_has_result_sim. Qed.
+Print Assumptions C06_finish_tick_has_result_sim.
+
+(* non-vacuity: the diamond of SimReachExamples under each scheduler, state after three ticks: the counts
+   are the histogram, and the pipeline is not yet successful except under overbook *)
+Example C06_sim_witness : forall a k,
+  counts_ok (cf_static SimReachExamples.Cx) (e_world (sm_exec (SimReachExamples.mid a))) k.
+Proof. exact AuditA.counts_ok_sim_applies. Qed.
+Example C06_sim_witness_values :
+  map (fun a => is_successful (cf_static SimReachExamples.Cx) (e_world (sm_exec (SimReachExamples.mid a))) 0)
+      [ANaive; AStarter; AOverbook; APriority; APriorityPool] = [false; false; true; false; false].
+Proof. vm_compute. reflexivity. Qed.
